@@ -5,5 +5,5 @@ CONSTANTS
   MaxLen = 2
 SPECIFICATION Spec
 INVARIANTS TypeOK OutValid NoOutputUnlessDone TrialsBounded ErrIff GenerousRecipeNeverRefused OneTuplePerString
-PROPERTIES RejectDiscardsCandidate RecipeNeverWritten Terminates
+PROPERTIES PanicIsTerminal RejectDiscardsCandidate RecipeNeverWritten Terminates
 CHECK_DEADLOCK FALSE
